@@ -70,7 +70,14 @@ func GenSocks4(t *rapid.T) []byte {
 }
 
 func GenSocks5(t *rapid.T) []byte {
-	return Socks5(pick(t, "ver", byte(5), 5, 5, 4), genBytes(t, "methods", 0, 255))
+	ver := pick(t, "ver", byte(5), 5, 5, 4)
+	switch rapid.IntRange(0, 2).Draw(t, "methodsKind") {
+	case 0: // the common methods only (so that filtered configurations see complete matching greetings)
+		return Socks5(ver, rapid.SliceOfN(rapid.SampledFrom([]byte{1, 2, 2, 1, 0}), 1, 6).Draw(t, "commonMethods"))
+	case 1:
+		return Socks5(ver, rapid.SliceOfN(rapid.SampledFrom([]byte{1, 2}), 1, 4).Draw(t, "authMethods"))
+	}
+	return Socks5(ver, genBytes(t, "methods", 0, 255))
 }
 
 func genAddrPort(t *rapid.T, label string, v6 bool) netip.AddrPort {
@@ -193,6 +200,19 @@ func GenRDPParts(t *rapid.T) RDPParts {
 }
 
 func GenRDP(t *rapid.T) []byte {
+	if rapid.IntRange(0, 6).Draw(t, "rdpShort") == 0 {
+		// a request whose headers are consistent with a payload that ends early: inside (or right after) the
+		// negotiation request or the correlation info it announces
+		p := GenRDPParts(t)
+		p.NegReq, p.CorrInfo = true, true
+		p.Flags |= 8
+		if rapid.Bool().Draw(t, "validProtocols") {
+			p.Protocols = 3
+		}
+		pl := RDPPayload(p)
+		cut := rapid.IntRange(0, min(44, len(pl)-1)).Draw(t, "cutTail")
+		return RDPWrap(pl[:len(pl)-cut])
+	}
 	if rapid.IntRange(0, 5).Draw(t, "rdpraw") == 0 {
 		// arbitrary payload inside consistent TPKT/X.224 headers, CR/LF heavy
 		pl := rapid.SliceOfN(rapid.SampledFrom([]byte{0x0d, 0x0a, 'C', 'o', 0, 1, 3, 0xe0, 0x08}), 1, 40).Draw(t, "rawpayload")
@@ -269,6 +289,16 @@ func GenH2(t *rapid.T) []byte {
 var helloCache sync.Map
 
 func GenTLS(t *rapid.T) []byte {
+	if rapid.IntRange(0, 7).Draw(t, "tinyRecord") == 0 {
+		// a handshake record with a self-consistent tiny (or empty) body
+		n := pick(t, "recLen", 0, 0, 1, 2, 3, 4, 5, 6, 38, 43)
+		body := genBytes(t, "recBody", n, n)
+		if n > 0 && rapid.Bool().Draw(t, "helloType") {
+			body[0] = 1
+		}
+		rec := []byte{0x16, 3, byte(rapid.IntRange(0, 4).Draw(t, "recMinor")), byte(n >> 8), byte(n)}
+		return append(rec, body...)
+	}
 	sni := pick(t, "sni", "example.com", "a.b.c.example.org", "", "xn--bcher-kva.example", strings.Repeat("a", 60)+".example.com")
 	nalpn := rapid.IntRange(0, 3).Draw(t, "nalpn")
 	alpn := []string{"h2", "http/1.1", "acme-tls/1"}[:nalpn]
